@@ -96,6 +96,11 @@ def build(name, sources, flags, repo_sources=(), compiler="g++", extra_dep=(), l
             o = "%s.%d.%d.o" % (exe, os.getpid(), k)
             rr = subprocess.run(cmd + list(compile_only_flags) + ["-c", str(src), "-o", o], capture_output=True, text=True)
             if rr.returncode != 0:
+                if may_fail:
+                    for f in objs + pobjs:
+                        if os.path.exists(f):
+                            os.remove(f)
+                    return None
                 raise InfraError("build of %s failed:\n%s" % (src, rr.stderr[-3000:]))
             objs.append(o)
         pobjs += objs
